@@ -32,6 +32,15 @@ func (e *Exec) unop(s *State, f *Frame, in *ssa.UnOp) Value {
 			}
 		}
 		v := e.load(s, p.Ref)
+		if fv, ok := v.(*FuncV); ok && p.Ref.Obj.Global != nil && len(p.Ref.Path) == 0 && fv.Fn == nil && !fv.Nil.Const {
+			if e.w.globalHasInit(p.Ref.Obj.Global) {
+				// a package-level function variable with an initialiser that nothing but init (and tests) assigns
+				e.note("package-level function variables that have an initialiser are non-nil")
+				nv := &FuncV{Nil: False, Name: p.Ref.Obj.Global.Name()}
+				e.lazyInit[p.Ref.Obj] = nv
+				v = nv
+			}
+		}
 		if sv, ok := v.(*SliceV); ok && isString(in.Type()) {
 			// *(*string)(unsafe.Pointer(&b)): the slice header read as a string header
 			if sv.Base == nil {
